@@ -388,7 +388,7 @@ def run_factors(case, only=None):
     for b in case["bases"]:
         torch.manual_seed(0)
         own.append(len(_mk_base(tp, b).sample_points()))       # own points of an identical, untouched sampler
-    decl = [dict(n_points=o.n_points, density=o.density) for o in objs]
+    decl = [dict(n_points=getattr(o, "n_points", None), density=getattr(o, "density", None)) for o in objs]
 
     def build(e):
         if e[0] == "b":
@@ -421,6 +421,8 @@ def run_factors(case, only=None):
                     cond = tp.conditions.PINNCondition(model, sampler, resid)
                 state[op["cid"]] = (cond, rec)
                 outs.append((op["cid"], "-"))
+                if rec.calls:
+                    nrows = len(rec.calls[-1]["rows"])      # a constructor may already ask the sampler
             else:
                 cond, rec = state[op["cid"]]
                 before = len(rec.calls)
@@ -432,7 +434,7 @@ def run_factors(case, only=None):
         rows.append(nrows)
         lens.append([_safe_len(o) for o in objs])
         del sink[:]
-    attrs_ok = all(o.n_points == d["n_points"] and o.density == d["density"] for o, d in zip(objs, decl))
+    attrs_ok = all(getattr(o, "n_points", None) == d["n_points"] and getattr(o, "density", None) == d["density"] for o, d in zip(objs, decl))
     return dict(outs=outs, lens=lens, rows=rows, own=own, attrs_ok=attrs_ok)
 
 
@@ -442,7 +444,7 @@ def line_factors(case, res):
         return f"b {e[1]}" if e[0] == "b" else f"{e[0]} {tok(e[1])} {tok(e[2])}"
     es, which = [], []
     for k, (op, nrows) in enumerate(zip(case["ops"], res["rows"])):
-        if op["op"] == "e" and nrows is not None:
+        if nrows is not None:
             c = case["conds"][op["cid"] - 1]
             es.append(tok(c["expr"]))
             which.append(k)
@@ -598,21 +600,70 @@ def run_history(case, only=None):
     return dict(outs=outs, dicts=report)
 
 
-def defaults_clean():
-    """the mutable default arguments of the constructors are still empty"""
+_IMMUTABLE = (type(None), bool, int, float, complex, str, bytes, tuple, frozenset, type)
+_BASELINE = {}
+
+
+def _summary(v, depth=0):
+    """a value-level fingerprint of a default argument (content of containers, state of objects)"""
+    import torch
+    if isinstance(v, _IMMUTABLE) or inspect.isfunction(v) or inspect.isbuiltin(v) or inspect.ismethod(v):
+        return "immutable"
+    if isinstance(v, dict):
+        return ("dict", sorted((str(k), type(x).__name__) for k, x in v.items()))
+    if isinstance(v, (list, set)):
+        return (type(v).__name__, len(v))
+    if torch.is_tensor(v):
+        return ("tensor", tuple(v.shape), v.detach().reshape(-1)[:8].tolist())
+    if hasattr(v, "as_tensor"):
+        try:
+            return ("points", tuple(v.as_tensor.shape), v.as_tensor.detach().reshape(-1)[:8].tolist())
+        except Exception:  # noqa
+            pass
+    if depth < 2 and hasattr(v, "__dict__"):
+        return (type(v).__name__, sorted((k, str(_summary(x, depth + 1))) for k, x in vars(v).items() if not k.startswith("__")))
+    return type(v).__name__
+
+
+def _default_args():
+    """every (class, parameter, default object) of the condition constructors that is not immutable"""
     C = classes()
-    tp = C["tp"]
-    bad = []
-    for name in ("SingleModuleCondition", "PINNCondition", "MeanCondition", "DeepRitzCondition", "PeriodicCondition",
-                 "IntegroPINNCondition", "HPM_EquationLoss_at_Sampler", "PIDeepONetCondition"):
-        cls = getattr(tp.conditions, name, None)
-        if cls is None:
+    out = []
+    mod = C["tp"].conditions
+    for name in sorted(dir(mod)):
+        cls = getattr(mod, name, None)
+        if not inspect.isclass(cls):
             continue
-        ps = inspect.signature(cls.__init__).parameters
-        if "data_functions" in ps and ps["data_functions"].default != {}:
-            bad.append(f"{name}.__init__ default data_functions now holds {list(ps['data_functions'].default)}")
-        if "parameter" in ps and len(ps["parameter"].default.as_tensor.reshape(-1)) != 0:
-            bad.append(f"{name}.__init__ default parameter is no longer empty")
+        try:
+            ps = inspect.signature(cls.__init__).parameters
+        except (TypeError, ValueError):
+            continue
+        for pn, prm in ps.items():
+            d = prm.default
+            if d is inspect.Parameter.empty or _summary(d) == "immutable":
+                continue          # None / numbers / strings / functions: clean by construction
+            out.append((name, pn, d))
+    return out
+
+
+def defaults_baseline():
+    if not _BASELINE:
+        _BASELINE["taken"] = True
+        for name, pn, d in _default_args():
+            _BASELINE[(name, pn)] = _summary(d)
+
+
+def defaults_clean():
+    """only a MUTABLE default (dict / list / sampler / parameter object) that has acquired content or state since the
+    harness started is a violation; `None` and immutable defaults are clean by construction"""
+    bad = []
+    for name, pn, d in _default_args():
+        base = _BASELINE.get((name, pn))
+        now = _summary(d)
+        if base is not None and now != base:
+            bad.append(f"{name}.__init__: the shared default argument `{pn}` changed: {str(base)[:120]} -> {str(now)[:120]}")
+        elif isinstance(d, (dict, list, set)) and len(d) > 0 and base is None:
+            bad.append(f"{name}.__init__: the shared default argument `{pn}` holds {len(d)} entries")
     return bad
 
 
@@ -762,13 +813,38 @@ def key_of(case):
     return c04.key_of(c)
 
 
-def run(ctx, rep, cases=None):
+def variants14(case, rng):
+    import copy
+    if case["kind"] in ("per", "don"):
+        return c04.variants(case, rng)
+    out = []
+    if case["kind"] in ("history", "shared", "factors"):
+        # the same history with every condition evaluated twice more at the end
+        v = copy.deepcopy(case)
+        for c in v["conds"]:
+            for _ in range(2):
+                if case["kind"] == "factors":
+                    v["ops"].append(dict(op="e", cid=c["cid"], seed=rng.randint(0, 10 ** 6)))
+                else:
+                    v["ops"].append(dict(op="e", cid=c["cid"], fresh=gen_rows(rng, c["n"], dim_of(c["space"]))))
+        out.append(v)
+        if case["kind"] == "history":
+            w = copy.deepcopy(v)
+            built = [c["cid"] for c in w["conds"]]
+            w["ops"].insert(len(case["ops"]), dict(op="s", cids=built, val=[], fresh={str(k): gen_rows(rng, w["conds"][k - 1]["n"], dim_of(w["conds"][k - 1]["space"])) for k in built}))
+            out.append(w)
+    return out
+
+
+def run(ctx, rep, cases=None, _intensify=True):
     rep.rule = ("seeded histories: 1-2 user dicts of data functions (+ the default argument), 2-4 PINN/mean conditions with own "
                 "static or non-static samplers and permuted variable orders, interleaved construct/evaluate operations; plus "
                 "periodic conditions (static and non-static) evaluated twice; 2-3 PIDeepONet conditions sharing one DeepONet "
                 "and one function set over 2-3 iterations in changing order; non-trivial = a user dict (or the default) is "
                 "shared by >= 2 conditions; distinct = distinct history structure (point values ignored)")
     cases = cases if cases is not None else gen_cases(ctx)
+    defaults_baseline()
+    rep.hist["default-arguments-watched"] = len([1 for k in _BASELINE if k != "taken"])
     hist = [c for c in cases if c["kind"] == "history"]
     pers = [c for c in cases if c["kind"] == "per"]
     results = [(run_history(c), {k["cid"]: run_history(c, only=k["cid"]) for k in c["conds"]}) for c in hist]
@@ -846,6 +922,23 @@ def run(ctx, rep, cases=None):
         rp = [per_case.get(("don", i), {}).get(j) for j in range(len(c["steps"]))]
         rep.case(key_of(c), True, sample=dict(case=key_of(c), losses=[st["loss"] for st in r["steps"]]), kind="deeponet")
         judge_deeponet(rep, c, r, al, rp)
+    if _intensify and rep.disagreements and not rep.failures:
+        # a correspondence broke and no oracle objected: intensify the failing-input search on exactly these cases
+        seen, todo = set(), []
+        for d in rep.disagreements:
+            c = d["input"]
+            c = c["case"] if isinstance(c, dict) and "case" in c and "kind" not in c else c
+            if isinstance(c, dict) and "kind" in c:
+                k = common.json.dumps(key_of(c), sort_keys=True, default=str)
+                if k not in seen and len(todo) < 8:
+                    seen.add(k)
+                    todo.append(c)
+        vs = [v for c in todo for v in variants14(c, ctx.rng)]
+        if vs:
+            sub = common.Report(ctx)
+            run(ctx, sub, vs, _intensify=False)
+            rep.failures += sub.failures
+            rep.notes.append(f"correspondence broke on {len(todo)} case(s): oracles re-run on {len(vs)} variants, {len(sub.failures)} failing inputs found")
 
 
 def replay(ctx, obj):
